@@ -1,9 +1,12 @@
-\* exhaustive: cells with |index| <= 12 x {centre cell, no centre cell} x {periodic, reflective, full}; act is part of the state
-CONSTANTS R = 12  MaxLevel = 2
+\* exhaustive: cells with |index| <= 12 x {centre cell, no centre cell} x {periodic (square cells), reflective, full (square, 2x1, 1x3 cells)};
+\* act is part of the state; MaxLevel 3 = every Apply / ChangePitch step out of every state reached by one step
+CONSTANTS R = 12  MaxLevel = 3  RectPitches <- RectP  SquarePitches <- SquareP
 INIT Init
 NEXT NextB
 CONSTRAINT Bound
 INVARIANT TypeOK
+INVARIANT OffsetIsHalfCell
+INVARIANT CentreIsGeometric
 INVARIANT CellAtExact
 INVARIANT GroupOrder
 INVARIANT EquivalentsAreImages
@@ -11,4 +14,5 @@ INVARIANT DomainIsQuadrant
 INVARIANT OrbitHasOneInDomain
 INVARIANT LineCellsCounted
 INVARIANT OrbitStableUnderGroup
+INVARIANT ChangePitchKeepsCells
 CHECK_DEADLOCK FALSE
